@@ -82,6 +82,25 @@ def main():
                 mult = max(1, sum(rc.count(r) for s_, rc in R.accepted))
                 if k > mult:
                     fails.append(("send:delivered-twice-without-crash", dict(obj, recipient=r.decode("latin1"), msg=n, k_reports=k, generation=g), len(R.history)))
+    # a build configured for up to 255 concurrent deliveries (conf-spawn): the spawner announces 200, control asks for 250
+    rb2 = vlib.RepoBuild("spawn255", conf={"conf-spawn": "255"})
+    if rb2.ok:
+        for conc, ann in (((250, 250), (200, 130)), ((250, 90), (255, 255))):
+            W = qc.World(rb2, "big", conc=conc)
+            many = [b"b%03d@remote.example" % i for i in range(230)] + [b"l%03d@local.example" % i for i in range(210)]
+            R = qc.Runner(W, {}, default=b"K", announce=ann); R.start(); R.service(0.4)
+            R.inject(b"s@x.example", many)
+            for _ in range(12): R.service(0.15, answer=False)
+            lim = {"l": min(conc[0], ann[0]), "r": min(conc[1], ann[1])}
+            slots = {"l": [c["dl"]["slot"][0] for c in R.cmds if c["chan"] == "l"], "r": [c["dl"]["slot"][0] for c in R.cmds if c["chan"] == "r"]}
+            ck.evaluated(); ck.nontrivial(("big", conc, ann)); ck.count("conf_spawn_255_histories")
+            for k in ("l", "r"):
+                if R.maxfly[k] > lim[k] or any(x >= lim[k] for x in slots[k]):
+                    fails.append(("send:concurrency-exceeded", dict(kind="history", build="conf-spawn=255", concurrency=dict(local=conc[0], remote=conc[1], announced_local=ann[0], announced_remote=ann[1]),
+                                                                   channel=k, outstanding=R.maxfly[k], highest_slot=max(slots[k] or [0]), limit=lim[k]), 0))
+            R.kill()
+    else:
+        mism.append(dict(stream="build with conf-spawn=255 failed", input="", real=rb2.log[-500:], model=""))
     # a crash inside todo_do (info/local written, todo still there), restart: nothing already delivered may be delivered again
     def judge(W, R, T, k):
         # the crash came before any delivery attempt, so nothing excuses a second delivery after the restart
